@@ -31,7 +31,7 @@ def rule_FP(run: Run) -> RuleResult:
     if not any(c.name == "Cacheable" for c in sites):
         raise AnalysisError("anchor Cacheable.fingerprint not found")
     for c in sites:
-        fn = c.methods["fingerprint"]
+        fn = c.method("fingerprint")
         f = c.module.relpath
         cons = f"{c.qualname}.fingerprint"
         res.count("functions")
@@ -43,24 +43,35 @@ def rule_FP(run: Run) -> RuleResult:
         amap = astu.single_assign_map(fn)
         selfn = astu.first_param(fn)
         pm = astu.parent_map(fn)
-        # (a) every use of the options parameter
+        # (a) every use of the options parameter, read off the interpreter's paths: it is handed to self.keys(·) and to the
+        # dotted lookup of a reported key, and to nothing else (whatever local, partial() or keyword form carries it there)
+        from .interp import analyse_function as _af
+        import re as _re
         ok_uses = True
         n_uses = 0
         bad_use = ""
-        for n in astu.walk_no_nested(fn):
-            if isinstance(n, ast.Name) and n.id == opt and isinstance(n.ctx, ast.Load):
-                n_uses += 1
-                par = pm.get(id(n))
-                good = False
-                if isinstance(par, ast.Call):
-                    nm = astu.short_name(par)
-                    if nm == "keys" and isinstance(par.func, ast.Attribute) and isinstance(par.func.value, ast.Name) and par.func.value.id == selfn and par.args and par.args[0] is n:
-                        good = True
-                    if nm == "get_dotted_key" and len(par.args) >= 2 and par.args[1] is n:
-                        good = True
-                if not good:
+        KEYS_T = f"call:keys({selfn},{opt})"
+        for p in _af(Ctx(repo), c.module, fn, cls=c):
+            for e in p.events:
+                if e.kind not in ("call", "op"):
+                    continue
+                terms = [a.key() for a in e.args] + ([e.opts.key()] if getattr(e, "opts", None) is not None else [])
+                for tk in terms:
+                    if not _re.search(r"(?<![\w.])" + _re.escape(opt) + r"(?![\w])", tk):
+                        continue
+                    n_uses += 1
+                    if e.text == "keys" and e.target is not None and e.target.key() == selfn and tk == opt:
+                        continue
+                    if e.text.endswith("get_dotted_key") and len(e.args) >= 2 and e.args[1].key() == opt:
+                        rest0 = e.args[0].key().replace(KEYS_T, "")
+                        if not _re.search(r"(?<![\w.])" + _re.escape(opt) + r"(?![\w])", rest0):
+                            continue
+                    # nested inside the value being serialised: only as part of the two uses above
+                    rest = _re.sub(r"call:confectioner\.templating\.get_dotted_key\((?:[^()]|\([^()]*\))*," + _re.escape(opt) + r"\)", "", tk.replace(KEYS_T, ""))
+                    if not _re.search(r"(?<![\w.])" + _re.escape(opt) + r"(?![\w])", rest):
+                        continue
                     ok_uses = False
-                    bad_use = f"line {n.lineno}: {ast.unparse(par) if par is not None else opt}"[:160]
+                    bad_use = f"line {e.line}: {e.text or e.op}({tk[:80]})"
         res.add(f"{cons}:options-only-via-keys-and-lookup", ok_uses and n_uses >= 2, f, fn.lineno,
                 f"{n_uses} uses of '{opt}'" + (f"; offending use {bad_use}" if bad_use else " — all are self.keys(·) or get_dotted_key(k, ·)"), nec)
         # (b) the key set is iterated through sorted(...)
@@ -179,7 +190,7 @@ def rule_CP(run: Run) -> RuleResult:
     res = RuleResult("R-CP")
     repo = run.repo
     cached = repo.cls("Cached")
-    f, ln = cached.module.relpath, cached.methods["evaluate"].lineno if "evaluate" in cached.methods else 0
+    f, ln = cached.module.relpath, cached.method("evaluate").lineno if "evaluate" in cached.methods else 0
     nec1 = "a value that does not come from a successful inner evaluation must never reach the cache (C12); " \
            "lookup, store and key must use the identical (evaluatable, options, cache) triple (C01)"
     paths = run.paths(cached, "evaluate")
@@ -674,7 +685,10 @@ def _may_raise(repo, cache_mod, fns, handlers, exc_name):
         for q, fn in fns.items():
             if q in may:
                 continue
-            guards = astu.enclosing_try_types(fn)
+            def with_guard(call, _m=cache_mod):
+                r_ = repo.resolve_expr(_m, call.func) if isinstance(call.func, (ast.Name, ast.Attribute)) else None
+                return astu.contextmanager_guard(r_[1].node) if r_ and r_[0] == "func" else []
+            guards = astu.enclosing_try_types(fn, with_guard)
             hit = None
             for n in astu.walk_no_nested(fn):
                 if catches(guards.get(id(n), [])):
